@@ -16,7 +16,9 @@ import numpy as np
 from bingo.symbolic_regression.symbolic_regressor import SymbolicRegressor
 cfg = json.loads(sys.argv[1])
 x = np.linspace(-3, 3, 25).reshape(-1, 1)
-y = (x ** 2 + 2.5 * x).flatten()
+# a target the operator sets cannot express exactly: no fit ends at fitness 0, so any difference between the random streams
+# of two fits shows in the best equation found
+y = (np.sin(2.1 * x) * x + 0.37 * x ** 2 - 1.3).flatten()
 kw = dict(population_size=24, stack_size=10, generations=cfg["generations"], max_time=1e7, random_state=cfg["seed"],
           use_simplification=cfg["simp"])
 if cfg["ops"] is not None:
